@@ -33,7 +33,7 @@ static void run_case(std::ostream& os, uint64_t s0, long long id, const std::str
   guarded(os, what, 120, [&](std::ostream& o) { run_case_body(o, s0, id, fam, S, C, emb, npts, cfg, reunion, nexec); });
   nexec += ((cfg == "lite" || cfg == "batchlite") ? 16 : 64) * (cfg == "notree" ? 1 : 2);   // executions happen in the child; count nominally
 }
-static bool g_gpcert = false, g_xtra = false; static std::vector<int> g_cts, g_frs;
+static bool g_gpcert = false, g_xtra = false, g_light = false; static std::vector<int> g_cts, g_frs;
 // small extra subject triangles, far to the right of the input, one vertex of each placed k units (|k| <= 9) above / below the y of a
 // crossing of two embedded input edges: unrelated geometry that puts a scanline right next to an intersection point
 static void add_extras(Rng& pr, const Paths64& S, const Paths64& C, const Emb& emb, Paths64& ES, std::vector<std::vector<long long>>& boxes) {
@@ -66,6 +66,7 @@ static void run_case_body(std::ostream& os, uint64_t s0, long long id, const std
   int ps = 1; std::vector<Point64> pts = sample_pts(pr, all, rect, npts, ps);
   Ev ce("Case"); ce.kn("id", id).ks("fam", fam).kn("emb", emb.id).kn("ps", ps).kv("subj", jpaths(S)).kv("clip", jpaths(C)).kv("pts", jpath(pts));
   if (g_gpcert) ce.kn("gpcert", gp_native(all, 3) ? 1 : 0);
+  if (g_light) ce.kn("light", 1);
   Paths64 ES = emb_paths(emb, S), EC = emb_paths(emb, C), none;
   std::vector<std::vector<long long>> boxes;
   if (g_xtra && !rect) { add_extras(pr, S, C, emb, ES, boxes); if (!boxes.empty()) ce.kv("extra", jarr(boxes.begin(), boxes.end(), [](const std::vector<long long>& b) { return jints(b); })); }
@@ -126,7 +127,7 @@ static int cmd_bool(const Args& a) {
   const int64_t mul = argi(a, "mul", 1);
   auto emit = [&](Paths64 S, Paths64 C) { if (mul != 1) { for (auto* ps : {&S, &C}) for (auto& p : *ps) for (auto& q : p) { q.x *= mul; q.y *= mul; } } for (long long e : embs) run_case(os, s0, ++ncase, fam, S, C, emb_table()[e], npts, cfg, reunion, nexec); };
   Paths64 S, C;
-  g_gpcert = argi(a, "gpcert", 0) != 0; g_xtra = argi(a, "xtra", 0) != 0;
+  g_gpcert = argi(a, "gpcert", 0) != 0; g_xtra = argi(a, "xtra", 0) != 0; g_light = argi(a, "light", 0) != 0;
   for (long long v : argl(a, "cts", "")) g_cts.push_back((int)v); for (long long v : argl(a, "frs", "")) g_frs.push_back((int)v);
   if (fam == "gps") { const int64_t off = argi(a, "off", 0);   // off: shift the lattice (negative coordinates: truncation towards zero behaves differently)
     for (long long i = 0; i < n; ++i) if (gen_gps(r, R, (int)argi(a, "maxpaths", 2), (int)argi(a, "maxv", 6), S, C)) { if (off) for (auto* ps : {&S, &C}) for (auto& p : *ps) for (auto& q : p) { q.x += off; q.y += off; } emit(S, C); } }
